@@ -431,10 +431,14 @@ def formatSpec (line ans : String) : String :=
         | some dom, some out => !wsOnlyExtras dom || preservesText dom out
         | _, _ => false
       let cm := ((fl.filter (·.startsWith "cm=")).headD "cm=?").drop 3 |>.toString
+      -- an extension name spelled with trivia inside its parentheses: a separate finding class
+      let xp := if fl.contains "xp=1" then "@spaced-ext-name" else ""
       let cs :=
         (if fl.contains "out=err" then ["does-not-compile:comments-" ++ cm] else []) ++
-        (if fl.contains "out=ok" && fl.contains "same=0" then ["descriptors-differ:" ++ (diff.drop 5).toString] else []) ++
-        (if fl.contains "idem=0" then ["not-idempotent:comments-" ++ cm] else []) ++
+        (if fl.contains "out=ok" && fl.contains "same=0" then
+          ["descriptors-differ:" ++ (diff.drop 5).toString ++
+            (if ((diff.drop 5).toString.splitOn "+").contains "options" then xp else "")] else []) ++
+        (if fl.contains "idem=0" then ["not-idempotent:comments-" ++ cm ++ xp] else []) ++
         (if !textOk then ["render-text-not-preserved"] else [])
       if cs.isEmpty then
         (if fl.contains "out=ok" && fl.contains "same=1" && fl.contains "idem=1" then "holds" else "fails bad-answer")
